@@ -590,7 +590,7 @@ def stream_fragments(ctx: Ctx, name: str, mode: str, n: int) -> Stream:
 	rng = ctx.sub_rng(name)
 	cases = []
 	notes: list[str] = []
-	for i in budgeted(n, ctx.scale(60, 900), notes):
+	for i in budgeted(n, ctx.scale(30, 900), notes):
 		if mode == 'malformed':
 			text = gen_malformed(rng, i)
 			meta = {'depth': -1, 'len': len(text)}
@@ -665,7 +665,7 @@ def stream_callers(ctx: Ctx, n: int) -> Stream:
 	rng = ctx.sub_rng('block-callers')
 	cases = []
 	notes: list[str] = []
-	for i in budgeted(n, ctx.scale(60, 900), notes):
+	for i in budgeted(n, ctx.scale(30, 900), notes):
 		mode = ('clean', 'dirty', 'malformed')[i % 3]
 		if mode == 'malformed':
 			text = gen_malformed(rng, i)
@@ -691,7 +691,7 @@ def stream_dictlike(ctx: Ctx, n: int) -> Stream:
 	rng = ctx.sub_rng('block-dictlike')
 	cases = []
 	notes: list[str] = []
-	for i in budgeted(n, ctx.scale(60, 900), notes):
+	for i in budgeted(n, ctx.scale(30, 900), notes):
 		b = rng.choice(BRACKETS)
 		delims = rng.choice([':', ',', ':,'])
 		mode = 'clean' if i % 3 else 'dirty'
@@ -811,7 +811,7 @@ def stream_view(ctx: Ctx, n: int) -> Stream:
 	rng = ctx.sub_rng('block-view')
 	cases = []
 	notes: list[str] = []
-	for i in budgeted(n, ctx.scale(60, 900), notes):
+	for i in budgeted(n, ctx.scale(30, 900), notes):
 		ops: list[list[str]] = []
 		for _ in range(3):
 			text, q = gen_quoted(rng)
@@ -969,7 +969,7 @@ def search_callers(ctx: Ctx) -> SearchResult:
 		res.findings.append(Finding(key=key, what=what, replay=replay))
 
 	notes: list[str] = []
-	for i in budgeted(ctx.scale(6000, 60000), ctx.scale(45, 600), notes):
+	for i in budgeted(ctx.scale(6000, 60000), ctx.scale(30, 600), notes):
 		mode = 'clean' if i % 3 else 'dirty'
 		callee = rng.choice(['range', 'f', 'a.b', 'ns::g', 'x->y', 'E'])
 		n = 1 + i % 3
@@ -1062,7 +1062,7 @@ def search_sep(ctx: Ctx) -> SearchResult:
 	hist: dict[str, int] = {}
 	seen: set[str] = set()
 	notes: list[str] = []
-	for i in budgeted(ctx.scale(20000, 150000), ctx.scale(45, 600), notes):
+	for i in budgeted(ctx.scale(20000, 150000), ctx.scale(30, 600), notes):
 		mode = 'clean' if i % 3 else 'dirty'
 		items = gen_fragment(rng, mode, i)
 		text = render(items)
@@ -1118,7 +1118,7 @@ def search_last(ctx: Ctx) -> SearchResult:
 	hist: dict[str, int] = {}
 	seen: set[str] = set()
 	notes: list[str] = []
-	for i in budgeted(ctx.scale(25000, 200000), ctx.scale(45, 600), notes):
+	for i in budgeted(ctx.scale(25000, 200000), ctx.scale(30, 600), notes):
 		b = BRACKETS[i % 4]
 		mode = 'clean' if (i // 4) % 2 else 'dirty'
 		# strings may contain brackets of the other kinds and any quotes, not the kind that is extracted
@@ -1183,7 +1183,7 @@ def search_last_general(ctx: Ctx) -> SearchResult:
 		if got != want:
 			res.findings.append(Finding(key='last:general-position', what=f'break_last_block({text!r}, {b!r}) = {got!r}, expected {want!r}', replay={'text': text, 'brackets': b, 'witness': True}))
 	notes: list[str] = []
-	for i in budgeted(ctx.scale(15000, 150000), ctx.scale(45, 600), notes):
+	for i in budgeted(ctx.scale(15000, 150000), ctx.scale(30, 600), notes):
 		b = BRACKETS[i % 4]
 		mode = 'clean' if (i // 4) % 2 else 'dirty'
 		items = gen_fragment(rng, mode, i, exclude=b)
@@ -1316,7 +1316,7 @@ def search_decorator(ctx: Ctx) -> SearchResult:
 		if bad:
 			res.findings.append(Finding(key=bad[0], what=bad[1], replay={'decorator': text, 'witness': True}))
 	notes: list[str] = []
-	for i in budgeted(ctx.scale(25000, 200000), ctx.scale(45, 600), notes):
+	for i in budgeted(ctx.scale(25000, 200000), ctx.scale(30, 600), notes):
 		mode = 'clean' if i % 3 else 'dirty'
 		text, path, args = deco_text(rng, mode, i)
 		res.cases += 1
@@ -1341,7 +1341,7 @@ def search_query(ctx: Ctx) -> SearchResult:
 	hist: dict[str, int] = {}
 	seen: set[str] = set()
 	notes: list[str] = []
-	for i in budgeted(ctx.scale(4000, 40000), ctx.scale(45, 600), notes):
+	for i in budgeted(ctx.scale(4000, 40000), ctx.scale(30, 600), notes):
 		mode = 'clean' if i % 3 else 'dirty'
 		gen = [deco_text(rng, mode, i + j) for j in range(rng.randint(1, 5))]
 		if rng.random() < 0.3:
@@ -1414,7 +1414,7 @@ def search_param(ctx: Ctx) -> SearchResult:
 	if bad:
 		res.findings.append(Finding(key=bad[0], what=bad[1], replay={'parameter': 'bool b = x == y', 'witness': True}))
 	notes: list[str] = []
-	for i in budgeted(ctx.scale(25000, 200000), ctx.scale(45, 600), notes):
+	for i in budgeted(ctx.scale(25000, 200000), ctx.scale(30, 600), notes):
 		text, var_type, symbol, default = param_text(rng, i)
 		res.cases += 1
 		seen.add(text)
@@ -1475,7 +1475,7 @@ def search_bracket(ctx: Ctx) -> SearchResult:
 		if bad:
 			res.findings.append(Finding(key=bad[0], what=bad[1], replay={'text': text, 'brackets': b, 'witness': True}))
 	notes: list[str] = []
-	for i in budgeted(ctx.scale(12000, 120000), ctx.scale(45, 600), notes):
+	for i in budgeted(ctx.scale(12000, 120000), ctx.scale(30, 600), notes):
 		b = rng.choice(BRACKETS)
 		mode = 'clean' if i % 3 else 'dirty'
 		inner = gen_fragment(rng, mode, i)
@@ -1558,7 +1558,7 @@ def search_pair(ctx: Ctx) -> SearchResult:
 		if got != want:
 			res.findings.append(Finding(key='parse_pair:pairs-differ', what=f'parse_pair({text!r}, {b!r}, {d!r}) = {got!r}, expected {want!r}', replay={'text': text, 'brackets': b, 'delimiter': d, 'witness': True}))
 	notes: list[str] = []
-	for i in budgeted(ctx.scale(8000, 80000), ctx.scale(45, 600), notes):
+	for i in budgeted(ctx.scale(8000, 80000), ctx.scale(30, 600), notes):
 		b = rng.choice(BRACKETS)
 		delims = rng.choice([':', ',', ':,'])
 		mode = 'clean' if i % 3 else 'dirty'
@@ -1611,7 +1611,7 @@ def search_skip(ctx: Ctx) -> SearchResult:
 	seen: set[str] = set()
 	toks = all_tokens()
 	notes: list[str] = []
-	for i in budgeted(ctx.scale(15000, 120000), ctx.scale(45, 600), notes):
+	for i in budgeted(ctx.scale(15000, 120000), ctx.scale(30, 600), notes):
 		text = render(gen_fragment(rng, 'clean', i))
 		m = matching(text)
 		seen.add(text)
@@ -1666,7 +1666,7 @@ STATEMENTS: dict[str, str] = {
 	'query_any': 'DecoratorQuery.any(*paths) = the decorators whose text before the first "(" is in paths, in order; contains(*paths) = whether there is one - for every list of decorator texts (unconditional since decorator_total)',
 	'sep_multichar_spec / sep_multichar_rejoin / callsites_delim_guard': 'for a multi-character delimiter that can not overlap itself (first character does not recur, no bracket/quote character: ", ", ": ", " ="; not " = " or "::"): the exact pieces for every fragment and the rejoin law d.join(segments) = text, pieces = stripped segments; every delimiter literal of the generated call-site table satisfies the guard (decide)',
 	'query_any_args': 'DecoratorQuery.any_args(subject) (production: deco_ignore.any_args(inherit) in class/_inherits.j2) = the decorators whose text between the first "(" and the last character contains subject, in order; for path(args) that text is args',
-	'quoted_literal / quoted_simple_string': 'is_quoted_literal(q + body + q, q) for a one-character quote = every quote character of the body stands behind a backslash (one in the first position never does); the loop never exhausts its fuel; the simple strings of the fragment grammar are quoted literals',
+	'quoted_literal / quoted_literal_spec / quoted_simple_string': 'is_quoted_literal(q + body + q, q) for a one-character quote = every quote character of the body stands behind a backslash (one in the first position never does); on EVERY text the result is quotedSpec (empty: no; the quote alone: yes; otherwise starts and ends with the quote and the inside is escaped); the loop never exhausts its fuel; the simple strings of the fragment grammar are quoted literals',
 	'var_type_pattern / var_type_origin_plain / var_type_origin_const': 'Param.var_type_origin of [const ␠+] base [<…>] [*|&] = base for every non-empty base over [A-Za-z0-9_:] and every template-argument text: on the regex branch the GENERATED term of Param.VarType (var_type_pattern ties the proof to it) run by the backtracking matcher - the optional group takes const and all white space / is skipped, group 2 is the longest name run - and on the split("<")[0] branch',
 	'param_origin': 'the whole way for a C++ parameter: Param.parse("[const ]base[<…>][*|&] name = default") gives (type, name, default) and var_type_origin of that type is base - composition of param_unrestricted and var_type_origin_*',
 	'sep_multichar_rejoin_counterexample': 'for a multi-character delimiter the rejoin law is false when occurrences overlap: break_separator("a:::b", "::") = ["a", "", "b"]',
@@ -1755,9 +1755,9 @@ def run(ctx: Ctx) -> int:
 		translate_ok=translate_ok, translate_msg=translate_msg,
 		statements={**STATEMENTS, **({'(retired call sites)': 'no longer production call sites of a BlockParser helper per the generated scan - the caller_* theorems about them remain statements about the helper composition only: ' + ', '.join(f'{op} = {CALLER_SITES[op][0]}' for op in sorted(retired_callers()))} if retired_callers() else {})},
 		partial={
-			'proved (all fragments, unbounded nesting, induction on Frag)': 'splitting = exact top-level split (hence cuts only at top-level delimiters, rejoin up to blanks, balanced pieces) for fragments with arbitrary simple strings; last bracket group of prefix+group (strings may contain the other bracket kinds and quotes); error branch; skip; decorator path/join_args/pieces and the key/value of positional and labelled pieces; parameter type/name/default for every default fragment; parse_bracket = the groups two levels deep in pre-order; the production callers (throw / dict-comprehension / pluck / indexer / is_initializer_call; the former range splitting only as a statement about the helpers); DecoratorQuery.any / contains / any_args; termination of _parse/_parse_block/_analyze_entry on every text; is_quoted_literal on quote + body + quote (exact characterisation); Param.var_type_origin on [const] base [<…>] [*|&] over the generated regular expression',
+			'proved (all fragments, unbounded nesting, induction on Frag)': 'splitting = exact top-level split (hence cuts only at top-level delimiters, rejoin up to blanks, balanced pieces) for fragments with arbitrary simple strings; last bracket group of prefix+group (strings may contain the other bracket kinds and quotes); error branch; skip; decorator path/join_args/pieces and the key/value of positional and labelled pieces; parameter type/name/default for every default fragment; parse_bracket = the groups two levels deep in pre-order; the production callers (throw / dict-comprehension / pluck / indexer / is_initializer_call; the former range splitting only as a statement about the helpers); DecoratorQuery.any / contains / any_args; termination of _parse/_parse_block/_analyze_entry on every text; is_quoted_literal for a one-character quote on every text (exact characterisation); Param.var_type_origin on [const] base [<…>] [*|&] over the generated regular expression',
 			'formerly false, proved after the repairs 3111a97 d6d867d eb33d21 f350973': 'param_unrestricted, decorator_positional, sep_spec_dirty, bracket_first/bracket_spec; the old witnesses are replayed from corpus/C18 and by the searches and must pass',
-			'correspondence + search only': 'the parse_pair law ((key, value) texts per depth on dict-like fragments with blank-free pieces, incl. directly adjacent foreign groups: structure-side oracle + stream block-dictlike; parse_pair has no caller); DecoratorHelper.match / match_args (regular expressions with caller-supplied patterns: no shipped pattern and no call site exists - the generated call-site scan finds none - so they are checked by search against CPython re only); multi-character delimiters that contain a bracket character or overlap themselves ("->", "::": correspondence only; the overlap counterexample is a theorem), empty delimiter, brackets arguments of other lengths, unbalanced text (correspondence); parse_to_formatter(…).format() (no caller: model + stream block-view + the round-trip law "dict-like text comes back with one blank behind every delimiter" by search); is_quoted_literal with multi-character or empty quotes and damaged texts, var_type_origin outside the shape (correspondence)',
+			'correspondence + search only': 'the parse_pair law ((key, value) texts per depth on dict-like fragments with blank-free pieces, incl. directly adjacent foreign groups: structure-side oracle + stream block-dictlike; parse_pair has no caller); DecoratorHelper.match / match_args (regular expressions with caller-supplied patterns: no shipped pattern and no call site exists - the generated call-site scan finds none - so they are checked by search against CPython re only); multi-character delimiters that contain a bracket character or overlap themselves ("->", "::": correspondence only; the overlap counterexample is a theorem), empty delimiter, brackets arguments of other lengths, unbalanced text (correspondence); parse_to_formatter(…).format() (no caller: model + stream block-view + the round-trip law "dict-like text comes back with one blank behind every delimiter" by search); is_quoted_literal with multi-character or empty quotes, var_type_origin outside the shape (correspondence)',
 		},
 		assumptions=[
 			'fragments are rendered with the ASCII bracket/quote characters of BlockParser._all_pair (generated table; the proofs are redone when it changes)',
